@@ -57,6 +57,8 @@ type stressOut struct {
 	HeldProbes    int             `json:"held_reader_probes"`
 	Porcupine     map[string]int  `json:"porcupine"`
 	HistOps       int             `json:"history_ops"`
+	OverlapRounds int             `json:"overlap_rounds"`
+	OverlapChecks int             `json:"overlap_term_checks"`
 	Problems      []stressProblem `json:"problems"`
 	Nontrivial    []string        `json:"nontrivial_rounds"`
 	Sample        any             `json:"sample,omitempty"`
@@ -513,6 +515,7 @@ func stressWorker(args []string) {
 	out := &stressOut{Porcupine: map[string]int{}}
 	for i := 0; i < sp.Rounds; i++ {
 		runRound(sp, sp.First+i, out)
+		runOverlapRound(sp, sp.First+i, out)
 		out.Rounds++
 	}
 	ob, _ := json.Marshal(out)
@@ -603,6 +606,8 @@ func runStress(r *ev.Run, dir string) {
 			total.ReadsMultiSeg += out.ReadsMultiSeg
 			total.HeldProbes += out.HeldProbes
 			total.HistOps += out.HistOps
+			total.OverlapRounds += out.OverlapRounds
+			total.OverlapChecks += out.OverlapChecks
 			for k, v := range out.Porcupine {
 				total.Porcupine[k] += v
 			}
@@ -636,6 +641,211 @@ func runStress(r *ev.Run, dir string) {
 	r.Extra("stress", map[string]any{
 		"race_detector": raceBuilt, "rounds": total.Rounds, "reads": total.Reads, "reads_overlapping_inflight_batch": total.ReadsOverlap,
 		"index_reader_reads_with_2plus_segments": total.ReadsMultiSeg, "held_reader_probes": total.HeldProbes,
-		"history_ops_checked_by_porcupine": total.HistOps, "porcupine": total.Porcupine, "race_reports": races, "configs": stressConfigs,
+		"history_ops_checked_by_porcupine": total.HistOps, "overlapping_id_rounds": total.OverlapRounds, "overlapping_id_term_checks": total.OverlapChecks, "porcupine": total.Porcupine, "race_reports": races, "configs": stressConfigs,
 	})
+}
+
+// runOverlapRound: writers race on the SAME ids (no ownership). Every written
+// document carries a unique version v in the fields ver and tag ("v<v>"). After
+// the writers finished, whatever order the batches took effect in, each id is
+// either absent or shows the version written by some writer's last operation on
+// it, DocCount / enumeration / match_all agree, and the term index agrees with
+// the stored documents: tag:v<v> finds exactly the id whose visible version is
+// v, and no stale version of any id is searchable.
+func runOverlapRound(sp stressSpec, round int, out *stressOut) {
+	g := rng.New(sp.Seed).Derive(fmt.Sprintf("overlap-%d", round))
+	cfgName := sp.Cfgs[(round*5+3)%len(sp.Cfgs)]
+	cfg := corpus.ConfigByName(cfgName)
+	seed := g.Uint64()
+	problem := func(class, detail string) {
+		out.Problems = append(out.Problems, stressProblem{class, detail, round, cfgName, seed})
+	}
+	writers := g.Range(2, 4)
+	nIDs := g.Range(1, 5)
+	type wop struct {
+		id  string
+		ver int // 0 = delete
+	}
+	plans := make([][]corpus.Batch, writers)
+	lastOp := make([]map[string]int, writers) // writer → id → ver of its last op on id (0 = delete)
+	allVers := map[int]string{}               // ver → id it was written to
+	ver := 0
+	for w := 0; w < writers; w++ {
+		lastOp[w] = map[string]int{}
+		nb := g.Range(3, 8)
+		for b := 0; b < nb; b++ {
+			var ops []corpus.Op
+			used := map[string]bool{}
+			for k := 0; k < g.Range(1, 3); k++ {
+				id := corpus.DocID(g.Intn(nIDs))
+				if used[id] {
+					continue
+				}
+				used[id] = true
+				if g.Chance(3, 4) {
+					ver++
+					d := corpus.GenDoc(g, id)
+					d.Fields["ver"] = float64(ver)
+					d.Fields["tag"] = fmt.Sprintf("v%d", ver)
+					ops = append(ops, corpus.Op{Kind: "index", ID: id, Doc: d})
+					lastOp[w][id] = ver
+					allVers[ver] = id
+				} else {
+					ops = append(ops, corpus.Op{Kind: "delete", ID: id})
+					lastOp[w][id] = 0
+				}
+			}
+			plans[w] = append(plans[w], corpus.Batch{Ops: ops})
+		}
+	}
+	d := mon.New()
+	d.Install()
+	d.Add(mon.Delay(g.Derive("delay"), 1, 3, 300))
+	idx, err := cfg.Open(filepath.Join(sp.Dir, fmt.Sprintf("o%d", round)), corpus.Mapping())
+	if err != nil {
+		problem("setup-error", err.Error())
+		return
+	}
+	if s := mon.ScorchOf(idx); s != nil {
+		d.Arm(s)
+	}
+	var wg sync.WaitGroup
+	start := make(chan struct{})
+	var emu sync.Mutex
+	var errs []string
+	for w := 0; w < writers; w++ {
+		wg.Add(1)
+		go func(w int) {
+			defer wg.Done()
+			<-start
+			for _, b := range plans[w] {
+				if err := corpus.ApplyBatch(idx, b); err != nil {
+					emu.Lock()
+					errs = append(errs, err.Error())
+					emu.Unlock()
+					return
+				}
+			}
+		}(w)
+	}
+	// a reader looks for duplicates while the writers run
+	stop := make(chan struct{})
+	var rwg sync.WaitGroup
+	rwg.Add(1)
+	go func() {
+		defer rwg.Done()
+		for {
+			select {
+			case <-stop:
+				return
+			default:
+			}
+			res, err := idx.Search(bleve.NewSearchRequestOptions(bleve.NewMatchAllQuery(), 100, 0, false))
+			if err != nil {
+				emu.Lock()
+				errs = append(errs, "search: "+err.Error())
+				emu.Unlock()
+				return
+			}
+			seen := map[string]bool{}
+			for _, h := range res.Hits {
+				if seen[h.ID] {
+					emu.Lock()
+					errs = append(errs, "DUP:"+h.ID)
+					emu.Unlock()
+					return
+				}
+				seen[h.ID] = true
+			}
+		}
+	}()
+	close(start)
+	wg.Wait()
+	close(stop)
+	rwg.Wait()
+	out.OverlapRounds++
+	defer func() {
+		d.Disarm()
+		_ = idx.Close()
+	}()
+	for _, e := range errs {
+		if strings.HasPrefix(e, "DUP:") {
+			problem("overlap/duplicate-hit", "match_all returned id "+e[4:]+" twice while writers were racing on it")
+		} else {
+			problem("overlap/error", e)
+		}
+	}
+	if len(errs) > 0 {
+		return
+	}
+	// quiescent checks
+	res, err := idx.Search(func() *bleve.SearchRequest {
+		r := bleve.NewSearchRequestOptions(bleve.NewMatchAllQuery(), 100, 0, false)
+		r.Fields = []string{"ver"}
+		return r
+	}())
+	if err != nil {
+		problem("overlap/error", err.Error())
+		return
+	}
+	visible := map[string]int{}
+	for _, h := range res.Hits {
+		if _, dup := visible[h.ID]; dup {
+			problem("overlap/duplicate-hit", "match_all returns "+h.ID+" twice after all writers returned")
+			return
+		}
+		v, _ := h.Fields["ver"].(float64)
+		visible[h.ID] = int(v)
+	}
+	n, _ := idx.DocCount()
+	if int(n) != len(visible) || int(res.Total) != len(visible) {
+		problem("overlap/count-mismatch", fmt.Sprintf("DocCount=%d match_all total=%d distinct ids=%d (%v)", n, res.Total, len(visible), visible))
+		return
+	}
+	for i := 0; i < nIDs; i++ {
+		id := corpus.DocID(i)
+		cands := map[int]bool{}
+		touched := false
+		for w := 0; w < writers; w++ {
+			if v, ok := lastOp[w][id]; ok {
+				cands[v] = true
+				touched = true
+			}
+		}
+		v, live := visible[id]
+		if !touched {
+			if live {
+				problem("overlap/ghost", id+" is visible but was never written")
+			}
+			continue
+		}
+		got := 0
+		if live {
+			got = v
+		}
+		if !cands[got] {
+			problem("overlap/state-is-no-serial-outcome", fmt.Sprintf("%s ends at version %d (0 = absent) but the writers' last operations on it wrote %v", id, got, cands))
+			return
+		}
+	}
+	// term index vs stored documents
+	for v, id := range allVers {
+		tq := bleve.NewTermQuery(fmt.Sprintf("v%d", v))
+		tq.SetField("tag")
+		tr, err := idx.Search(bleve.NewSearchRequestOptions(tq, 10, 0, false))
+		if err != nil {
+			problem("overlap/error", err.Error())
+			return
+		}
+		out.OverlapChecks++
+		wantHit := visible[id] == v
+		if wantHit && (tr.Total != 1 || tr.Hits[0].ID != id) {
+			problem("overlap/term-index-misses-visible-version", fmt.Sprintf("%s shows version %d but tag:v%d returns %d hits", id, v, v, tr.Total))
+			return
+		}
+		if !wantHit && tr.Total != 0 {
+			problem("overlap/stale-version-searchable", fmt.Sprintf("version %d of %s was overwritten or deleted (visible version %d) but tag:v%d still returns %d hit(s)", v, id, visible[id], v, tr.Total))
+			return
+		}
+	}
 }
